@@ -10,8 +10,8 @@
 (* on the wire.  The module is a pure step function over a state record    *)
 (* (like Content.Feed) so that the design model (MC_Conn) and the trace    *)
 (* specification run the SAME definitions:                                 *)
-(*    Legal(cs, e)   may frame e cross the wire now?                       *)
-(*    Step(cs, e)    the state after it did                                *)
+(*    ConnLegal(cs, e)   may frame e cross the wire now?                       *)
+(*    ConnStep(cs, e)    the state after it did                                *)
 (* e = [dir |-> "c" | "s", ch, kind |-> "proto" | "method" | "header" |    *)
 (*      "body" | "heartbeat", name, size, wire, fm, cm]                    *)
 (*   negotiation   proto, Start/StartOk, (Secure/SecureOk)*, Tune/TuneOk,  *)
@@ -115,7 +115,7 @@ LegalN(cs, e) ==
               /\ Feed(mine, FrameOf(e)).mode # "error"
          [] OTHER -> FALSE                           \* heartbeats and protocol headers belong to channel 0
 
-Legal(cs, e) == /\ e.ch \in ConnChans /\ e.dir \in Dirs /\ cs.phase # "closed"
+ConnLegal(cs, e) == /\ e.ch \in ConnChans /\ e.dir \in Dirs /\ cs.phase # "closed"
                 /\ SizeFits(cs, e)
                 /\ IF e.ch = 0 THEN Legal0(cs, e) ELSE LegalN(cs, e)
 
@@ -157,5 +157,5 @@ StepN(cs, e) ==
                          ELSE [cs EXCEPT !.pend[d][c] = IF Waits(n) THEN n ELSE @, !.asm[d][c] = fed]
       [] OTHER -> [cs EXCEPT !.asm[d][c] = Settle(Feed(@, FrameOf(e)))]
 
-Step(cs, e) == IF e.ch = 0 THEN Step0(cs, e) ELSE StepN(cs, e)
+ConnStep(cs, e) == IF e.ch = 0 THEN Step0(cs, e) ELSE StepN(cs, e)
 =============================================================================
